@@ -122,6 +122,9 @@ def special_progs(rng):
     q = P(synth.mkset(0, [], [mk(1, [0, 1], [2, 4], struct=True), mk(2, 2, []), mk(3, 4, [])]), [], 0, "none:fields-after-prevented", cleanup=False, err=False)
     q["star"] = True; q["extra_fields"] = {0: {"name": "X1", "t": 2, "tag": 'wire:"-"', "first": True}}; reset_struct(q, [2, 4])
     out.append(q)
+    # both forms of a struct provider consumed by one injector: two separate fresh structs
+    out.append(P(synth.mkset(0, [], [mk(1, [0, 1], [2], struct=True), mk(2, 2, []), mk(3, 4, [0, 1])]), [], 4, "none:struct-both-forms", cleanup=False, err=False))
+    out.append(P(synth.mkset(0, [], [mk(1, [0, 1], [2], struct=True), mk(2, 2, []), mk(3, 4, [1, 0])]), [], 4, "none:struct-both-forms-ptr-first", cleanup=False, err=False))
     # two parameters of one separately written composite type
     out.append(P(synth.mkset(0, [], [mk(1, 0, [3, 3]), mk(2, 3, [])]), [], 0, "dup-param:pointer"))
     out.append(P(synth.mkset(0, [synth.mkset(1, [], [mk(1, 0, [2, 5, 5]), mk(2, 5, []), mk(3, 2, [])])]), [], 0, "dup-param:pointer-nested"))
